@@ -139,7 +139,12 @@ class Gen:
                 sub = self.wlist(depth + 1)
             items.append((self.links_only() if (self.with_links and rnd.random() < 0.12)
                           else self.inline(0, allow_ref=False, hi=3), sub))
-        return ("list", kind, items, "html" if (depth == 1 and rnd.random() < 0.25) else "wiki")
+        how = "html" if (depth == 1 and rnd.random() < 0.25) else "wiki"
+        if depth == 1 and how == "wiki" and rnd.random() < 0.08:
+            # a list written from its second level on ("## x" right away): the first-level item has no text of its own
+            inner = ("list", rnd.choice(("ul", "ol")), items, "wiki")
+            return ("list", kind, [([], inner)], "wiki")
+        return ("list", kind, items, how)
 
     def dlist(self):
         items = []
@@ -178,7 +183,7 @@ class Gen:
         if not nested and rnd.random() < 0.06 and self.maxwords >= 150:
             r0, c0 = rnd.randrange(nrows), rnd.randrange(ncols)
             rows[r0][c0] = (rows[r0][c0][0], ("inline", self.long_inline()))
-        caption = self.inline(0, False, False, 0, 2) if rnd.random() < 0.3 else None
+        caption = self.inline(0, False, rnd.random() < 0.5, 0, 2) if rnd.random() < 0.3 else None
         how = "html" if (rnd.random() < 0.25 and not nested) else "wiki"
         if how == "html" and any(c[0] == "blocks" and any(b[0] == "table" for b in c[1]) for row in rows for _, c in row):
             how = "wiki"
@@ -286,7 +291,8 @@ class Ser:
         ch = "*" if kind == "ul" else "#"
         lines = []
         for inl, sub in items:
-            lines.append(prefix + ch + self.rnd.choice((" ", "")) + self.inline(inl))
+            if inl or sub is None:
+                lines.append(prefix + ch + self.rnd.choice((" ", "")) + self.inline(inl))
             if sub is not None:
                 lines.extend(self.wikilist(sub, prefix + ch))
         return lines
